@@ -35,8 +35,12 @@ PID = "C16"
 LEVEL = "exploration"
 CRATE = "harness-fuzz"
 
-# instances per vector
-INSTANCES = {"quick": 4, "thorough": 200}
+# instances per vector, by kind of endpoint (the signed-message endpoints
+# need no credentials at all and get the most)
+INSTANCES = {
+    "quick": {"json": 6, "cms": 32, "path": 20, "text": 24},
+    "thorough": {"json": 120, "cms": 500, "path": 300, "text": 400},
+}
 # at most this many instances of one vector in one world (accepted odd
 # inputs accumulate state)
 RANGE = 25
@@ -107,8 +111,9 @@ def behaviours(ctxs, n, seed):
                                          v["e"], v["c"], v["t"]))
                 for i in range(0, len(vecs), CHUNK):
                     part = vecs[i:i + CHUNK]
-                    for first in range(0, n, RANGE):
-                        count = min(RANGE, n - first)
+                    nk = n[part[0]["kind"]]
+                    for first in range(0, nk, RANGE):
+                        count = min(RANGE, nk - first)
                         behs.append({
                             "ctx": c["ctx"], "chan": chan, "seed": seed,
                             "n": count,
@@ -154,7 +159,8 @@ def run_shards(chk, behs, tag, timeout):
             wdir = os.path.join(work, f"work_{idx}")
             logp = os.path.join(work, f"harness_{idx}_{attempt}.log")
             vlib.write_ndjson(inp, part)
-            cmd = [vlib.harness_bin(CRATE), "run", "--in", inp, "--out",
+            cmd = [os.environ.get("KV_FUZZ_BIN") or vlib.harness_bin(CRATE),
+                   "run", "--in", inp, "--out",
                    outp, "--work", wdir]
             with open(logp, "w") as logf:
                 try:
@@ -186,7 +192,7 @@ def run_shards(chk, behs, tag, timeout):
                 problems.extend(st["problems"])
                 break
             cur = outp + ".current"
-            if rc == 2 or not os.path.exists(cur) or attempt >= 4:
+            if rc == 2 or not os.path.exists(cur) or attempt >= 60:
                 with open(logp) as f:
                     print(f.read()[-3000:])
                 raise vlib.ToolError(
@@ -195,8 +201,17 @@ def run_shards(chk, behs, tag, timeout):
             with open(cur) as f:
                 died = json.load(f)
             with open(logp) as f:
-                died["log"] = f.read()[-1500:]
+                died["log"] = f.read()[-6000:]
             died["rc"] = rc
+            # a machine that is out of memory is not a finding: only a
+            # request for an absurd amount (a size the client chose) is
+            m = re.search(r"memory allocation of (\d+) bytes failed",
+                          died["log"])
+            if rc == -9 or (m and int(m.group(1)) < (1 << 32)):
+                raise vlib.ToolError(
+                    f"harness shard {idx} was killed or ran out of memory "
+                    f"(exit status {rc}): "
+                    f"{m.group(0) if m else 'killed'}")
             deaths.append(died)
             # carry on behind the behaviour it died in, and with that
             # behaviour minus the vector
@@ -246,6 +261,8 @@ def judge(chk, events, tag, jobs=8):
     counters)."""
     work = os.path.join(chk.out, "val_" + tag)
     os.makedirs(work, exist_ok=True)
+    if not events:
+        return [], collections.Counter(), 0
     # pairs (reset, req) must stay together
     pairs = [(events[i], events[i + 1]) for i in range(0, len(events), 2)]
     for a, b in pairs:
@@ -341,13 +358,25 @@ def report_all(chk, bad_events, deaths):
         n = sum(e["n"] for e in evs)
         chk.report(sig, describe(ev) + f" [{n} inputs in {len(evs)} "
                    f"vector outcomes]", replay_of(ev))
+    seen = set()
     for d in deaths:
         v = d["vector"]
         sig = f"abort:{v['e']}:{v['c']}"
+        if sig in seen:
+            continue
+        seen.add(sig)
         vec = {k: v[k] for k in ("e", "c", "t", "chan", "kind", "strict")}
-        chk.report(sig, f"the harness process died (exit status {d['rc']}) "
-                   f"while endpoint {v['e']} ({v['chan']}) handled an input "
-                   f"of class {v['c']}: {d.get('log', '')[-300:]}",
+        why = [l for l in d.get("log", "").splitlines()
+               if re.search(r"memory allocation|stack overflow|fatal runtime"
+                            r"|panicked|SIGSEGV|abort", l)]
+        inp = d.get("input") or {}
+        n = sum(1 for x in deaths if x["vector"]["e"] == v["e"]
+                and x["vector"]["c"] == v["c"])
+        chk.report(sig, f"the process died (exit status {d['rc']}, not a "
+                   f"panic that could be caught) while endpoint {v['e']} "
+                   f"({v['chan']}) handled an input of class {v['c']}: "
+                   f"{inp.get('method', '')} {inp.get('path', '')[:200]} "
+                   f"-- {' | '.join(why)[:300]} [{n} deaths]",
                    {"ctx": d["ctx"], "chan": d["chan"], "seed": d["seed"],
                     "vector": vec, "inst": d["inst"], "input": d["input"]})
 
@@ -379,7 +408,9 @@ def coverage_checks(chk, ctxs, events, counters, n, deaths):
     if missing:
         raise vlib.ToolError(f"{len(missing)} vectors were not executed, "
                              f"e.g. {sorted(missing)[:3]}")
-    short = [k for k in want if got[k] < n]
+    kind_of = {(ctx_tag(c["ctx"]), v["e"], v["c"], v["t"], v["chan"]):
+               v["kind"] for c in ctxs for v in c["vectors"]}
+    short = [k for k in want if got[k] < n[kind_of[k]]]
     # (instances lost to a dying process are the only legitimate reason)
     if len(short) > 8:
         raise vlib.ToolError(f"{len(short)} vectors ran fewer instances "
@@ -452,7 +483,8 @@ def run(tier, seed):
     events, stats, deaths = run_shards(
         chk, behs, "main", timeout=1500 if tier == "quick" else 3000)
     t1 = time.time()
-    vlib.log(f"harness: {stats.get('inputs', 0)} inputs in "
+    vlib.log(f"harness: {sum(e['n'] for e in events if e['ev'] == 'req')} "
+             f"inputs in "
              f"{len(behs)} behaviours, {stats.get('worlds', 0)} server "
              f"instances, {t1 - t0:.0f}s")
     bad, counters, lines = judge(chk, events, "main")
@@ -473,7 +505,9 @@ def run(tier, seed):
         chk.sample({k: e[k] for k in ("ctx", "e", "c", "t", "chan", "out",
                                       "cfgchg", "pubchg", "n", "detail",
                                       "note")})
-    chk.cov["evaluations"] = int(stats.get("inputs", 0))
+    # inputs whose outcome was recorded and judged (what a process that
+    # died had done in its unfinished behaviour is executed again)
+    chk.cov["evaluations"] = sum(e["n"] for e in reqs)
     chk.cov["traces_validated_against_impl"] = lines
     chk.cov["vectors"] = nvec
     chk.cov["instances_per_vector"] = n
@@ -489,7 +523,8 @@ def run(tier, seed):
     chk.cov["rule"] = (
         "vectors = every (context, endpoint, class, addressed entity, "
         "channel) of Malformed.tla, enumerated completely by TLC "
-        f"({nvec}); every vector is concretised by {n} seeded instances "
+        f"({nvec}); every vector is concretised by seeded instances "
+        f"({n} per vector, by kind of endpoint) "
         "(structured mutation of a valid message of the endpoint, or raw "
         "random bytes): evaluations = inputs executed on the real code = "
         "vectors x instances - the byte space is sampled, not covered; "
@@ -523,6 +558,9 @@ def run(tier, seed):
         "channel (cas_import is private); the direct channel covers "
         "decoding and validate_ca_hierarchy",
     ]
+    # the inputs of every non-conforming outcome are in the replay files
+    for sub in ("run_main", "val_main", "val_selftest"):
+        shutil.rmtree(os.path.join(chk.out, sub), ignore_errors=True)
     return chk.finish()
 
 
@@ -537,8 +575,12 @@ def replay(path, seed):
     vectors = []
     if rp.get("input"):
         vectors.append(dict(vec, input=rp["input"], inst=rp["inst"]))
-    # the recipe: same seed, same instance number (fresh signatures)
-    vectors.append(dict(vec, inst=rp["inst"], n=1))
+    # the recipe: same seed, same instance number (fresh signatures);
+    # hand-written replays have no recipe
+    if rp.get("inst") is not None:
+        vectors.append(dict(vec, inst=rp["inst"], n=1))
+    else:
+        vectors[0]["inst"] = 0
     behs = [{"id": i, "ctx": rp["ctx"], "chan": rp["chan"],
              "seed": rp["seed"], "n": 1, "vectors": [v]}
             for i, v in enumerate(vectors)]
